@@ -12,19 +12,19 @@ nthm = sum(len(v) for v in thm.values())
 nfiles = len(glob.glob('/verif/coq/theories/*/*.v'))
 nfix = int(subprocess.check_output("git -C /repo log --oneline | grep -c ' fix:'", shell=True).decode())
 models = {
- "C01": ("M_Slicing.v (+ Base/PyIndex.v, Base/Shape.v)", "cubes over sliced / resampled exact linear FITS WCS (lin_wcs) and probe WCS, all basic index items incl. negative / out-of-range / Ellipsis / None, Python and numpy integers, numpy + dask payloads, chains of slices; lookup-table gWCS and already-wrapped (resampled, high-level) WCS families by the direct oracle; `array_shape None` read as 'no shape known'"),
+ "C01": ("M_Slicing.v (+ Base/PyIndex.v, Base/Shape.v)", "cubes over sliced / resampled exact linear FITS WCS (lin_wcs) and probe WCS, all basic index items incl. negative / out-of-range / Ellipsis / None, Python and numpy integers, numpy + dask payloads; lookup-table gWCS, already-wrapped (resampled, high-level) WCS and already-sliced cubes (start > 0, explicit stops, recorded array shape) by the direct oracle; `array_shape None` read as 'no shape known'"),
  "C02": ("M_ExtraCoords.v", "lookup tables (Quantity 1-3 tables, Time, SkyCoord mesh / not) on any axes, on a 1-D FITS grid, sky meshes; WCS-backed ExtraCoords with permuted / partial mappings, integer items and chains (direct oracle)"),
  "C03": ("M_GlobalCoords.v", "histories of integer slices with branching, user-added global coords, 3-table Quantity coordinates; rot family restricted to 2-D; two generic gWCS frames whose dropped object keys clash (a gwcs limitation) are not generated"),
  "C04": ("M_Crop.v (reuses C14's wrapper evaluator)", "probe WCS with exact edges, TAN / rotated / tan_split families, lookup-table extra coords on 1-3-D cubes, None per independent group and all-None, float values in two unit spellings, Quantities, high-level objects, malformed requests"),
- "C05": ("M_WorldCoords.v", "every correlation structure up to 3x3 (+ sampled 4x4), wcs / extra_coords / combined_wcs, corners, grouped objects, ask / scribble / add / ask; gWCS primary WCS not generated"),
+ "C05": ("M_WorldCoords.v (proofs in P_WorldCoords.v, P_WorldCoordsEC.v)", "every correlation structure up to 3x3 (+ sampled 4x4), wcs / extra_coords / combined_wcs, corners, grouped objects, ask / scribble / add / ask; extra coords coupled to several cube axes in any axis order: WCS-backed ExtraCoords with any correlation matrix and mapping (in the model: world_array_ec, the transposition `relabel`), 2-D per-pixel SkyCoord tables (direct oracle); gWCS primary WCS not generated"),
  "C06": ("M_Wrappers.v (compound), P_Combined.v", "probe WCS with 0-4 linear tables, plain / integer-sliced / rebinned, inspect-before-last-add"),
  "C07": ("M_Store.v", "random histories <= 6 steps on cubes / sequences / collections; sharing measured per cube-level step; snapshots of every object after every step"),
  "C08": ("M_Rebin.v", "all bin shapes dividing shapes up to 4-D, operations mean / sum / min / max / custom, masks, handle_mask, dask, new_unit"),
- "C09": ("M_Resample.v", "lin / TAN / rotated WCS, lookup-table extra coords incl. SkyCoord in several units and Time, multi-step rebin; multi-dimensional tables and WCS-backed extra coords not generated"),
+ "C09": ("M_Resample.v", "lin / TAN / rotated WCS, lookup-table extra coords incl. SkyCoord in several units and Time, multi-step rebin; one coordinate spanning several axes in any axis order (2-D per-pixel SkyCoord table, two-table Quantity coordinate, WCS-backed ExtraCoords with any mapping) by the direct oracle, with two known findings (q2-grid-shapes, sky2-length1)"),
  "C10": ("M_Arith.v", "see MANIFEST; uncertainties carrying a unit different from the cube's are not generated"),
  "C11": ("M_Sequence.v", "exhaustive small index domains; sequences of ragged cubes; Ellipsis alone (tuple and bare); numpy integers; out-of-range explode axes are unspecified and not judged"),
  "C12": ("M_IndexAsCube.v", "exhaustive: all length vectors up to 3 (4) cubes x length 3 (4), every int / slice item of both signs; 2-4-D cubes with ints on the leading axes"),
- "C13": ("M_Collection.v (proofs in P_Collection.v, P_CollectionInv.v)", "edit histories (slice, keys, pop, update, del, refused operations) on collections with 0-4 aligned axes in any per-member order; every collection an edit came from is re-observed; numpy integers; sequence members not generated"),
+ "C13": ("M_Collection.v (proofs in P_Collection.v, P_CollectionInv.v)", "edit histories (slice, keys, pop, update, del, refused operations) on collections with 0-4 aligned axes in any per-member order; every collection an edit came from is re-observed; numpy integers; members that are NDCubeSequences (axis 0 = the sequence axis, aligned or not; an integer there turns the member into a cube); slices that would leave an empty sequence are unspecified and not judged"),
  "C14": ("M_Wrappers.v", "wrapper expressions of depth <= 3 over probe / lin WCS with exact rational evaluation (wexpr evaluator); scalar and integer-typed factor / offset arguments; compound members that are themselves compounds"),
  "C15": ("M_Unwrap.v", "chains of slices and resamplings over FITS WCS with PC or CD matrices; raw negative items excluded (C01 normalises them before they reach the WCS)"),
  "C16": ("M_RebinUnc.v", "StdDev / Variance / InverseVariance, sum / mean / prod / nan-variants, masks, ignores-mask; NaN data together with operation_ignores_mask: either consistent reading is accepted (NaN members out of sum and divisor, or in both), a mixture is not"),
@@ -108,9 +108,14 @@ A("correlated group through `combined_wcs`; reprojecting an integer-sliced cube 
 A("the dropped dimension (C20 quantifies over cubes on plain FITS WCS); an uncertainty that carries its own unit different")
 A("from the cube's is mis-scaled by `*` / `to()`; `axis_world_coords_values(wcs=extra_coords)` raises for a multi-table")
 A("Quantity coordinate without distinct physical types (duplicate namedtuple fields) and for an empty ExtraCoords;")
-A("2-D non-meshed SkyCoord tables of shape (1, n) cannot build their model and have no inverse; rebin by all ones with")
+A("(2-D non-meshed SkyCoord tables with a dimension of length 1 cannot build their model: now the C09 finding sky2-length1); rebin by all ones with")
 A("`handle_mask=None` returns the cube itself, mask included ('returns an equal cube' and 'mask absent' conflict there);")
-A("an empty collection (last member popped) raises in `aligned_dimensions`; 0-d results are refused everywhere (no WCS).\n")
+A("an empty collection (last member popped) raises in `aligned_dimensions`; 0-d results are refused everywhere (no WCS);")
+A("`common_axis_coords` pairs the coordinates of different cubes by position, so cubes whose common axis carries different")
+A("sets of coordinates are mixed or raise (the harness gives all cubes of a sequence one coordinate structure); the mapping")
+A("setter of a WCS-backed ExtraCoords refuses cube pixel axes >= the extra WCS's own pixel dimensions; the compound wrapper's")
+A("`pixel_axis_names` raises when members name a shared pixel axis differently; `np.allclose`'s default rtol makes the")
+A("compound wrapper's shared-axis consistency check looser far from the origin; an empty NDCubeSequence has no shape.\n")
 A("### 0.6 False alarms of my own checks (corrected in the machinery, never listed as findings)\n")
 A("* The parser of Coq's output did not match `(313%Z, 2%Z)` (printed under `Open Scope Q_scope`), so the correspondence")
 A("  of C09 / C14 / C15 / C16 was silently ignored for a while: regex fixed and a residue check added (anything left over")
